@@ -92,10 +92,25 @@ type vfsTree struct {
 	writers map[int]*StreamWriter[int]
 	leaves  []int
 	pipes   []int
+	sent    map[int]int // items already sent during construction (pre-reads)
 }
 
-func vfsBuild(nodes []vfsNode) *vfsTree {
-	t := &vfsTree{readers: map[int]*StreamReader[int]{}, writers: map[int]*StreamWriter[int]{}}
+// root pipe below reader node id (following the first source), 0 when the root is an array
+func vfsRootPipe(nodes []vfsNode, id int) int {
+	for {
+		n := nodes[id-1]
+		if n.K == "pipe" {
+			return id
+		}
+		if len(n.Src) == 0 {
+			return 0
+		}
+		id = n.Src[0]
+	}
+}
+
+func vfsBuild(nodes []vfsNode, pre *vfsLog) *vfsTree {
+	t := &vfsTree{readers: map[int]*StreamReader[int]{}, writers: map[int]*StreamWriter[int]{}, sent: map[int]int{}}
 	copies := map[int][]*StreamReader[int]{}
 	used := map[int]bool{}
 	for i, n := range nodes {
@@ -113,6 +128,15 @@ func vfsBuild(nodes []vfsNode) *vfsTree {
 			copy(arr, n.Items)
 			t.readers[id] = StreamReaderFromArray(arr)
 		case "copy":
+			// "read k items, then Copy": idx of a copy node = number of Recv calls on its source before Copy (logged like any call);
+			// a pipe-backed source is fed one item before each of them
+			for j := 0; j < n.Idx; j++ {
+				if p := vfsRootPipe(nodes, n.Src[0]); p != 0 {
+					vfsSend(pre, t.writers[p], p, nodes[p-1].Items[t.sent[p]])
+					t.sent[p]++
+				}
+				vfsRecv(pre, t.readers[n.Src[0]], n.Src[0])
+			}
 			copies[id] = t.readers[n.Src[0]].Copy(n.N)
 		case "child":
 			t.readers[id] = copies[n.Src[0]][n.Idx]
@@ -224,6 +248,9 @@ func vfsRunSeq(c *vfsCase, t *vfsTree) ([]*vfsLog, bool) {
 		defer close(done)
 		defer vfsGuard(l, 0, nil)
 		wi := map[int]int{}
+		for p, k := range t.sent {
+			wi[p] = k
+		}
 		for _, op := range c.Ops {
 			switch op.Op {
 			case "send":
@@ -260,7 +287,7 @@ func vfsRunConc(c *vfsCase, t *vfsTree) ([]*vfsLog, bool) {
 			r := rand.New(rand.NewSource(c.Seed*1000 + int64(p)))
 			sw := t.writers[p]
 			<-start
-			for _, it := range c.Tree[p-1].Items {
+			for _, it := range c.Tree[p-1].Items[t.sent[p]:] {
 				vfsJitter(r)
 				if vfsSend(l, sw, p, it) {
 					break
@@ -342,15 +369,32 @@ func TestVerifStreams(t *testing.T) {
 				c.Tree[i].Items = []int{}
 			}
 		}
-		tree := vfsBuild(c.Tree)
+		pre := &vfsLog{}
+		var tree *vfsTree
+		bdone := make(chan struct{})
+		go func() { // construction performs the pre-reads of "read k, then Copy" cases: guarded like every other call
+			defer close(bdone)
+			defer vfsGuard(pre, 0, nil)
+			tree = vfsBuild(c.Tree, pre)
+		}()
 		var logs []*vfsLog
 		var hung bool
-		if c.Mode == "seq" {
+		select {
+		case <-bdone:
+		case <-time.After(3 * time.Second):
+			hung = true
+		}
+		if hung || tree == nil {
+			logs = nil
+		} else if c.Mode == "seq" {
 			logs, hung = vfsRunSeq(&c, tree)
 		} else {
 			logs, hung = vfsRunConc(&c, tree)
 		}
-		var evs []vfsEv
+		evs := append([]vfsEv(nil), pre.evs...)
+		if hung && logs == nil && atomic.LoadInt32(&pre.pending) == 1 {
+			evs = append(evs, vfsEv{t: 1 << 60, ev: "hang", a: pre.cur.a, op: pre.cur.op, res: ""})
+		}
 		for _, l := range logs {
 			if hung {
 				// the goroutine may still be running: take what it logged so far (racy only when the watchdog fired)
